@@ -15,7 +15,16 @@ import (
 	"time"
 )
 
-const VerifDir = "/verif"
+// VerifDir is the root of the verification tree (evidence, replays, known
+// findings). /verif unless QMC_VERIF points at a snapshot.
+var VerifDir = verifDir()
+
+func verifDir() string {
+	if d := os.Getenv("QMC_VERIF"); d != "" {
+		return d
+	}
+	return "/verif"
+}
 
 // Verdict of one case.
 type Verdict struct {
@@ -323,7 +332,7 @@ func (c *Ctx) writeReplay(id string, v Verdict) string {
 	doc := map[string]any{
 		"property": c.Prop, "tier": c.Tier, "seed": c.Seed, "case_id": id,
 		"detail": v.Detail, "case": v.Data,
-		"replay_cmd": fmt.Sprintf("/verif/run.sh replay %s", path),
+		"replay_cmd": fmt.Sprintf("%s/run.sh replay %s", VerifDir, path),
 	}
 	b, _ := json.MarshalIndent(doc, "", " ")
 	os.WriteFile(path, b, 0o644)
